@@ -4,6 +4,8 @@
 //!
 //!   hvh <property> <quick|thorough> <seed>          generate cases
 //! A replay regenerates the same stream from (property, tier, seed) and selects the case.
+mod canon;
+mod net;
 mod rng;
 mod wr;
 mod registry;
